@@ -175,8 +175,39 @@ c22 = _simple("C22", gen.profile(p_eff=0.1, live=0.0, clocks=("fine",), hosts=((
                                  p_spied=0.6, p_bad_child=0.3,
                                  w_ops=dict(step=30, dispatch=15, post=2, defer=0, recall=0, is_in=30, child=25, scribble=0,
                                             clear_spy=0, clear_trace=0, empty_rtc=0)), 2500, 20000)
-c23 = _simple("C23", gen.profile(p_eff=0.2, live=0.0, clocks=("fine",), hosts=(("queued", 4), ("instr", 3), ("plain", 3)),
-                                 p_spied=0.6), 2500, 20000)
+def _ao_host_phase(run, prop, force, n, clauses, what):
+  """the active-object host (real ActiveObject under the deterministic scheduler, AOTrace.tla): the clauses that speak about `prop`"""
+  from harness import aocheck
+  results = aocheck.run_batch(n, kinds=("random", "pct"), caps=(5, 8), force=force)
+  verdicts, st, trn = aocheck.validate_all(results)
+  by = dict(results)
+  for tid, v in verdicts.items():
+    if v.get("stuck"):
+      raise common.MachineryError("AO trace %s not consumed" % tid)
+    r = by[tid]
+    for c in v.get("bad", []):
+      if c in clauses:
+        run.violation("ao-host:" + c, "active object, execution %d rejected: %s; %s; outcome=%s errors=%s cfg=%s" % (
+          tid, c, what(r), r["outcome"], [e[:2] for e in r["errors"][:1]], {k: r["cfg"].get(k) for k in ("nested", "toggle", "anon", "spied", "early")}),
+          {"cfg": r["cfg"], "schedule": r["schedule"], "verdict": v, "names": r.get("names"), "errors": r["errors"][:1]})
+  run.add(active_object_executions=len(results), states=st, transitions=trn)
+  return results
+
+
+def c23(tier):
+  """the sequential hosts against Hsm.tla (Name / CurState clauses), then the active-object host: what a named or an anonymous active
+  object says about itself once start_at has returned and when it has come to rest (AOTrace.tla NameAfterStart / NameAtRest)"""
+  run = common.Run("C23", tier, "model_checking")
+  run.assumptions += ASSUME_SEQ + ["active-object host: state_name / state_fn are read when start_at has returned (before anything is posted) and when the "
+                                   "object has come to rest; the charts are a single state, two siblings, or a composite state with two substates"]
+  P = gen.profile(p_eff=0.2, live=0.0, clocks=("fine",), hosts=(("queued", 4), ("instr", 3), ("plain", 3)), p_spied=0.6)
+  with cf.ThreadPoolExecutor(2) as ex:
+    f = ex.submit(model_check_hsm, run, tier)
+    seqcheck.run(run, "C23", 2500 if tier == "quick" else 20000, P)
+    f.result()
+  _ao_host_phase(run, "C23", "c23", 400 if tier == "quick" else 8000, ("NameAfterStart", "NameAtRest", "Error"),
+                 lambda r: "after start_at %s, at rest %s, A transitions %s" % (r["names"]["after"], r["names"]["final"], r["names"]["a_disp"]))
+  return run.finish()
 
 
 # ---------------------------------------------------------------- C24
@@ -196,7 +227,8 @@ def _bad_maker(rng, P):
     chart["bad"] = ["nosuper", rng.randint(1, n), ""]      # no status when asked for its super state (no final else clause)
   ops = gen.gen_ops(rng, chart, P)
   if rng.random() < 0.4:
-    ops[0] = ["start", chart["bad"][1]]
+    k0 = [k for k, o in enumerate(ops) if o[0] == "start"][0]
+    ops[k0] = ["start", chart["bad"][1]]
   return chart, ops
 
 
@@ -232,6 +264,9 @@ def _build_maker(rng, P):
   # what kind of callable the registered callbacks are: plain functions, functools.partial objects, objects with __call__,
   # or (template / Factory only: the generated text calls cb(chart, e)) bound methods of the chart
   chart["cbstyle"] = rng.choice(["def", "def", "partial", "object"] + (["method"] if chart["build"] in ("template", "factory") else []))
+  if chart["build"] in ("template", "factory", "tocode") and rng.random() < 0.3:
+    # a mixed chart: some states written by hand (naming their own super state), the others generated and nested under / around them
+    chart["hand_states"] = sorted(i for i in range(1, chart["n"] + 1) if rng.random() < 0.5)
   chart["decoy"] = rng.random() < 0.3       # a second chart object with the same state names, another hierarchy and other callbacks
   chart["host"] = "factory" if chart["build"] == "factory" or (chart["build"] == "tocode" and rng.random() < 0.3) else "queued"
   chart["live_spy"] = chart["live_trace"] = False
@@ -240,6 +275,8 @@ def _build_maker(rng, P):
   if not chartgen.registered_list(chart):
     chart["estyle"][0] = "h"
   chart["reg"] = chartgen.registered_list(chart)
+  if chart.get("hand_states") and not [r for r in chart["reg"] if r[0] not in chart["hand_states"]]:
+    chart["hand_states"] = []          # (as above: at least one callback is registered with the chart object)
   ops = gen.gen_ops(rng, chart, P)
   return chart, ops
 
@@ -253,6 +290,8 @@ def c17(tier):
   run.assumptions += ASSUME_SEQ + [
     "callbacks are plain functions, functools.partial objects, callable objects or (template/Factory builds) bound methods of the chart, "
     "each with a unique __name__ other than 'handled'; states are passed as functions, not strings",
+    "in about a quarter of the generated/to_code charts some states are hand-written functions and the others are generated and nested "
+    "under or around them (mixed charts)",
     "the Factory chart is driven through HsmWithQueues.start_at/next_rtc without starting the active object's thread"]
   P = gen.profile(nmin=1, nmax=8, deep=0.6, p_init=0.4, live=0.0, clocks=("fine",), p_eff=0.3, hosts=(("queued", 1),),
                   p_spied=1.0, caps=(3, 500), nops=(3, 10),
@@ -285,6 +324,8 @@ def _config_maker(rng, P, tid, seed):
   host, spied, ls, lt = C18_CONFIGS[tid % len(C18_CONFIGS)]
   chart.update({"host": host, "spied": spied, "live_spy": bool(ls), "live_trace": bool(lt), "eff": [],
                 "clock": base.choice(["fine", "const", "coarse"])})
+  if base.random() < 0.25:
+    chart["hstyle"] = "wrapped"      # where the states do not carry the spy decorator they carry a decorator of the user's own
   ops = [["start", start]]
   for sg in sigs:
     if host == "queued":
